@@ -39,7 +39,7 @@ def run(ctx):
     ctx.trusted = cm.STD_TRUST + ["x86-64 cvttsd2si semantics for out-of-range casts (model returns -1)"]
     ctx.tested_not_proved = ["binary64 rounding never moves a point across a cell edge when it is 1e-9 "
                              "(relative) away from it - tested with an exact rational oracle"]
-    proved = cm.prove(ctx)
+    proved = cm.prove_with_kernels(ctx, ["getnxy", "getcoord", "c_coord2cell", "c_cell2rowcol", "c_cell2coord", "c_neighbours"])
     cm.use_impl()
     rng = ctx.rng
     terms, replays = [], []
